@@ -131,6 +131,8 @@ struct G<'a> {
     tunnels: Vec<String>,
     threads: Vec<String>,
     externals: Vec<(String, usize)>,
+    /// externals used only inside strings and choice text
+    str_externals: Vec<(String, usize)>,
     knots: Vec<String>,
     temps: Vec<String>,
     msg_id: usize,
@@ -289,7 +291,7 @@ impl<'a> G<'a> {
                         s.push_str(&format!(" l={{{f}({lv})}}"));
                     }
                 }
-                6 if self.cfg.externals && !self.externals.is_empty() => {
+                6 if self.cfg.externals && !self.cfg.external_heavy && !self.externals.is_empty() => {
                     let e = self.rng.pick(&self.externals).clone();
                     let args: Vec<String> = (0..e.1).map(|_| self.int_atom()).collect();
                     s.push_str(&format!(" x={{{}({})}}", e.0, args.join(", ")));
@@ -436,7 +438,93 @@ impl<'a> G<'a> {
         }
     }
 
+    /// A call `name(S, a)` whose first argument is the unique site number S; returns
+    /// (call text, value the peers and the Ink fallback compute for it).
+    fn ext_call(&mut self, pool_str: bool, site: usize) -> Option<(String, i64)> {
+        let pool = if pool_str { self.str_externals.clone() } else { self.externals.clone() };
+        if pool.is_empty() {
+            return None;
+        }
+        let e = self.rng.pick(&pool).clone();
+        let mut args: Vec<i64> = vec![site as i64];
+        for _ in 1..e.1 {
+            args.push(self.rng.range(0, 9));
+        }
+        let mut want: i64 = 7;
+        for (k, a) in args.iter().enumerate() {
+            want += a * 10i64.pow(k as u32);
+        }
+        let a: Vec<String> = args.iter().map(|x| x.to_string()).collect();
+        Some((format!("{}({})", e.0, a.join(", ")), want))
+    }
+
+    /// External calls in every syntactic position and around line ends (C12). Every site has a
+    /// unique number S that is the call's first argument and appears in the lines around it:
+    /// `pre{S}` = a line that ends before the call, `post{S}` = a line that can only be
+    /// delivered after the call has run, `want=` = the value the call must have produced.
+    fn external_site(&mut self, indent: usize) {
+        self.marker += 1;
+        let sid = self.marker;
+        let m = format!("K{}L{}", self.knot, sid);
+        match self.rng.below(8) {
+            0 => {
+                if let Some((c, _)) = self.ext_call(false, sid) {
+                    self.line(indent, &format!("{m} pre{sid} line"));
+                    self.line(indent, &format!("~ {c}"));
+                    self.line(indent, &format!("{m} post{sid} line"));
+                }
+            }
+            1 => {
+                if let Some((c, w)) = self.ext_call(false, sid) {
+                    self.line(indent, &format!("{m} inl{sid} x={{{c}}} want={w}; post{sid}"));
+                }
+            }
+            2 => {
+                if let Some((c, w)) = self.ext_call(false, sid) {
+                    self.line(indent, &format!("{m} cond{sid} x={{{c} > 20:big|small}} want={}; post{sid}", if w > 20 { "big" } else { "small" }));
+                }
+            }
+            3 => {
+                // after glue: the preceding line is not finished, the call may run while it is built
+                if let Some((c, w)) = self.ext_call(false, sid) {
+                    self.line(indent, &format!("{m} gpre{sid} glued <>"));
+                    self.line(indent, &format!("~ {c}"));
+                    let _ = w;
+                    self.line(indent, &format!("{m} post{sid} tail"));
+                }
+            }
+            4 => {
+                if let (Some((c, w)), false) = (self.ext_call(false, sid), self.ints.is_empty()) {
+                    let v = self.rng.pick(&self.ints).clone();
+                    self.line(indent, &format!("{m} pre{sid} line"));
+                    self.line(indent, &format!("~ {v} = {c}"));
+                    self.line(indent, &format!("{m} asg{sid} x={{{v}}} want={w}; post{sid}"));
+                }
+            }
+            5 | 6 => {
+                // inside a string
+                if let (Some((c, w)), false) = (self.ext_call(true, sid), self.strs.is_empty()) {
+                    let v = self.rng.pick(&self.strs).clone();
+                    self.line(indent, &format!("{m} pre{sid} line"));
+                    self.line(indent, &format!("~ {v} = \"s-{{{c}}}\""));
+                    self.line(indent, &format!("{m} str{sid} x={{{v}}} want=s-{w}; post{sid}"));
+                }
+            }
+            _ => {
+                if let Some((c, w)) = self.ext_call(false, sid) {
+                    self.line(indent, &format!("{m} inl{sid} x={{{c}}} want={w}; post{sid} <>"));
+                    let m2 = self.m();
+                    self.line(indent, &format!("{m2} joined"));
+                }
+            }
+        }
+    }
+
     fn statement(&mut self, indent: usize, depth: usize, in_func: bool) {
+        if self.cfg.external_heavy && !in_func && !self.in_shared && self.rng.chance(1, 3) {
+            self.external_site(indent);
+            return;
+        }
         if self.cfg.assign_heavy && self.rng.chance(1, 3) {
             // assignments before, between and after line ends
             self.assign(indent);
@@ -479,7 +567,7 @@ impl<'a> G<'a> {
                 let args: Vec<String> = (0..f.1).map(|_| self.int_atom()).collect();
                 self.line(indent, &format!("~ {}({})", f.0, args.join(", ")));
             }
-            13 if self.cfg.externals && !self.externals.is_empty() => {
+            13 if self.cfg.externals && !self.cfg.external_heavy && !self.externals.is_empty() => {
                 let e = self.rng.pick(&self.externals).clone();
                 let args: Vec<String> = (0..e.1).map(|_| self.int_atom()).collect();
                 if self.rng.chance(1, 2) && !self.ints.is_empty() {
@@ -538,7 +626,17 @@ impl<'a> G<'a> {
                 2 => format!("{m} plain"),
                 _ => format!("{m} pre[in]"),
             };
-            let bits = if self.rng.chance(1, 4) { self.inline_bits() } else { String::new() };
+            let mut bits = if self.rng.chance(1, 4) { self.inline_bits() } else { String::new() };
+            let mut body = body;
+            if self.cfg.external_heavy && self.rng.chance(1, 5) {
+                self.marker += 1;
+                let sid = self.marker;
+                if let Some((c, w)) = self.ext_call(true, sid) {
+                    // choice-only text (inside the brackets): evaluated as a string, once, when the choice is offered
+                    body = format!("[{m} only chc{sid} x={{{c}}} want={w};]");
+                    bits = String::new();
+                }
+            }
             let divert = match self.rng.below(6) {
                 0 => format!(" -> {next}"),
                 1 if !self.tunnels.is_empty() && self.cfg.tunnels => String::new(),
@@ -614,6 +712,7 @@ pub fn render(rng: &mut Rng, cfg: &GenCfg) -> String {
         tunnels: vec![],
         threads: vec![],
         externals: vec![],
+        str_externals: vec![],
         knots: vec![],
         temps: vec![],
         msg_id: 0,
@@ -705,10 +804,20 @@ pub fn render(rng: &mut Rng, cfg: &GenCfg) -> String {
         let n = 1 + g.rng.below(2);
         for i in 0..n {
             let name = format!("ext{i}");
-            let argc = g.rng.below(3);
+            let argc = if g.cfg.external_heavy { 1 + g.rng.below(2) } else { g.rng.below(3) };
             let params: Vec<String> = (0..argc).map(|k| format!("p{k}")).collect();
             g.line(0, &format!("EXTERNAL {name}({})", params.join(", ")));
             g.externals.push((name, argc));
+        }
+        if g.cfg.external_heavy {
+            let argc = 1 + g.rng.below(2);
+            let params: Vec<String> = (0..argc).map(|k| format!("p{k}")).collect();
+            g.line(0, &format!("EXTERNAL exts0({})", params.join(", ")));
+            g.str_externals.push(("exts0".to_string(), argc));
+            let all: Vec<String> = g.externals.iter().chain(g.str_externals.iter()).map(|e| e.0.clone()).collect();
+            for n in all {
+                g.line(0, &format!("VAR extcount_{n} = 0"));
+            }
         }
     }
     // names of later sections (so earlier ones can refer to them)
@@ -818,7 +927,8 @@ pub fn render(rng: &mut Rng, cfg: &GenCfg) -> String {
         }
         let m = g.m();
         let target = g.rng.pick(&knot_names).clone();
-        let target = if g.rng.chance(1, 2) { "END".to_string() } else { target };
+        // without `loops` the program has no back edges at all (sites run at most once)
+        let target = if g.rng.chance(1, 2) || !g.cfg.loops { "END".to_string() } else { target };
         g.line(0, &format!("+ {m} thread choice"));
         g.line(1, &format!("{m} thread body"));
         g.line(1, &format!("-> {target}"));
@@ -872,12 +982,22 @@ pub fn render(rng: &mut Rng, cfg: &GenCfg) -> String {
     }
 
     // ---- external fallbacks
-    let externals = g.externals.clone();
+    let mut externals = g.externals.clone();
+    externals.extend(g.str_externals.iter().cloned());
     for e in externals.iter() {
         let params: Vec<String> = (0..e.1).map(|k| format!("p{k}")).collect();
         g.line(0, &format!("=== function {}({}) ===", e.0, params.join(", ")));
-        let sum = if params.is_empty() { "7".to_string() } else { format!("{} + 7", params.join(" + ")) };
-        g.line(0, &format!("~ return {sum}"));
+        if g.cfg.external_heavy {
+            // the fallback is story code, so its call counter is rewound with look-ahead:
+            // it yields the number of *committed* calls; the value is order-sensitive
+            g.line(0, &format!("~ extcount_{} = extcount_{} + 1", e.0, e.0));
+            let terms: Vec<String> = params.iter().enumerate().map(|(k, p)| if k == 0 { p.clone() } else { format!("{p} * {}", 10i32.pow(k as u32)) }).collect();
+            let sum = if terms.is_empty() { "7".to_string() } else { format!("{} + 7", terms.join(" + ")) };
+            g.line(0, &format!("~ return {sum}"));
+        } else {
+            let sum = if params.is_empty() { "7".to_string() } else { format!("{} + 7", params.join(" + ")) };
+            g.line(0, &format!("~ return {sum}"));
+        }
         g.line(0, "");
     }
 
